@@ -94,6 +94,11 @@ inductive Op where
   | has (k : Nat) | hasv (k : Nat) | hast (k : Nat)
   | len | empty | iter | keys | values | clear
   | entry (k n : Nat) | entocc (k : Nat)
+  /-- the rest of the Entry API: `match entry(k) { Occupied(e) => …, Vacant(e) => … }` with
+      `e.remove()`, `e.insert(v)`, `e.get()`/`e.key()`, `e.get_mut()`/`e.into_mut()`,
+      `entry(k).or_insert_with(|| v)`, `entry(k).key()` -/
+  | entrem (k : Nat) | entins (k n : Nat) | entget (k : Nat) | entmut (k n : Nat)
+  | entwith (k n : Nat) | entkey (k : Nat)
   | idx (k : Nat) | idxmut (k : Nat) | idxset (k n : Nat)
   | retain | sort | sortby
   | extend (args : List Nat)
@@ -227,6 +232,33 @@ def dHas (m : Items) (k : Nat) : Bool :=
   | some s => !s.isNone
   | none => false
 
+/-- `entry(k)`: `some s` = `Occupied` holding `s`, `none` = `Vacant`; and the map after the call
+    (`Table::entry`, `TableLike::entry`: `self.items.entry(key)` as it is, so an `Item::None` is occupied;
+    `InlineTable::entry` first writes the value `{}` over an `Item::None`) -/
+def entryOf (fx : Fix) (d : Dialect) (m : Items) (k : Nat) : Option Slot × Items :=
+  match imGet m k with
+  | some .placeholder =>
+    match d with
+    | .inline => if fx.inlineEntry then (none, m) else (some (.item .tbl), imSet m k (.item .tbl))
+    | _ => if fx.entOcc then (none, m) else (some .placeholder, m)
+  | some s => (some s, m)
+  | none => (none, m)
+
+/-- `Entry::or_insert` / `Entry::or_insert_with` (`InlineEntry::…` for the dialect `inline`) -/
+def orInsertStep (fx : Fix) (d : Dialect) (m : Items) (k n : Nat) : Ret × Items :=
+  match imGet m k with
+  | some .placeholder =>
+    match d with
+    -- `InlineTable::entry`: "`Item::None` is a corner case of a corner case, let's just pick a "safe" value"
+    | .inline =>
+      if fx.inlineEntry then (.slot (.item (.int n)), imSet m k (.item (.int n)))
+      else (.slot (.item .tbl), imSet m k (.item .tbl))
+    | _ =>
+      if fx.entry then (.slot (.item (.int n)), imSet m k (.item (.int n)))
+      else (.slot .placeholder, m)
+  | some s => (.slot s, m)
+  | none => (.slot (.item (.int n)), imPush m k (.item (.int n)))
+
 def step (fx : Fix) (d : Dialect) (m : Items) : Op → Ret × Items
   | .ins k n =>
     let r := imInsert m k (.item (.int n))
@@ -261,19 +293,33 @@ def step (fx : Fix) (d : Dialect) (m : Items) : Op → Ret × Items
   | .keys => (.keys ((dIter fx d m).map (·.1)), m)
   | .values => (.na, m)
   | .clear => (.unit, [])
-  | .entry k n =>
-    match imGet m k with
-    | some .placeholder =>
-      match d with
-      -- `InlineTable::entry`: "`Item::None` is a corner case of a corner case, let's just pick a "safe" value"
-      | .inline =>
-        if fx.inlineEntry then (.slot (.item (.int n)), imSet m k (.item (.int n)))
-        else (.slot (.item .tbl), imSet m k (.item .tbl))
-      | _ =>
-        if fx.entry then (.slot (.item (.int n)), imSet m k (.item (.int n)))
-        else (.slot .placeholder, m)
-    | some s => (.slot s, m)
-    | none => (.slot (.item (.int n)), imPush m k (.item (.int n)))
+  | .entry k n => orInsertStep fx d m k n
+  | .entwith k n => orInsertStep fx d m k n
+  | .entrem k =>
+    -- `OccupiedEntry::remove`: `self.entry.shift_remove()`
+    let e := entryOf fx d m k
+    match e.1 with
+    | some s => (.opt (some s), (imShiftRemove e.2 k).1)
+    | none => (.opt none, e.2)
+  | .entins k n =>
+    -- `OccupiedEntry::insert` returns the old value, `VacantEntry::insert` appends
+    -- (`(imInsert · k ·).1` writes in place when the key has a position: only a repaired `entry()` is vacant there)
+    let e := entryOf fx d m k
+    match e.1 with
+    | some s => (.opt (some s), imSet e.2 k (.item (.int n)))
+    | none => (.opt none, (imInsert e.2 k (.item (.int n))).1)
+  | .entget k =>
+    let e := entryOf fx d m k
+    (.kv (e.1.map fun s => (k, s)), e.2)
+  | .entmut k n =>
+    -- `*e.into_mut() = v` after reading through `e.get_mut()`
+    let e := entryOf fx d m k
+    match e.1 with
+    | some s => (.opt (some s), imSet e.2 k (.item (.int n)))
+    | none => (.opt none, e.2)
+  | .entkey k =>
+    let e := entryOf fx d m k
+    (.bool e.1.isSome, e.2)
   | .entocc k =>
     match imGet m k with
     | some .placeholder =>
